@@ -131,9 +131,9 @@ class C10(Prop):
         text='proof: int(string(i)) = i for ALL int64, uint(string(u)) = u for ALL uint64, string(bytes(s)) = s for ALL Unicode strings, bad UTF-8 is always an error, timestamp(string(t)) = t for ALL whole-second timestamps of years 1..9999 and whole-minute offsets, duration(string(d)) = d for ALL whole-second durations in range, int/uint of a double truncate toward zero or fail, never clamp. double(string(d)) = d rests on CPython repr/float (trusted, corresponded on random bit patterns): partial',
         note='Lean kernel; CPython int()/str()/float()/repr(), UTF-8 codec, pendulum.parse trusted and corresponded; string(double)/double(string) not modelled (oracle only)',
         ref='DESIGN.md §5 C10')
-    lean_targets = ["Cel.Props.C10", "Cel.Bridge.Conv"]
-    audit_namespaces = ["Cel.Props.C10", "Cel.Bridge.Conv"]
-    gen_names = ["Conv", "Time"]
+    lean_targets = ["Cel.Props.C10", "Cel.Bridge.Conv", "Cel.Bridge.Time"]
+    audit_namespaces = ["Cel.Props.C10", "Cel.Bridge.Conv", "Cel.Bridge.Time"]
+    gen_names = ["Conv", "Time", "Num"]
     trusted = ["CPython `float.__repr__` (shortest round-trip) and `float(text)` (correctly rounded): double(string(d)) == d is corresponded on random bit patterns, not proved",
                "CPython `int(text[, base])`, `str(int)`, `math.trunc`, the UTF-8 codec: modelled in Lean and compared on every run",
                "pendulum.parse for RFC 3339 shaped text: modelled (shape, field ranges, zone designators) and compared; other shapes pendulum accepts are outside the model",
